@@ -39,6 +39,8 @@ Live(s) == {t \in Tasks(s) : ~s.fin[t+1]}
 \* runtime id of the task running code index v (each code index is spawned at most once)
 HasChild(s, v) == \E c \in Tasks(s) : s.ix[c+1] = v
 ChildId(s, v) == CHOOSE c \in Tasks(s) : s.ix[c+1] = v
+\* the closure of the thread running code index v has returned (its `ret` step is done)
+ClosureReturned(s, v) == HasChild(s, v) /\ s.pc[ChildId(s, v) + 1] > Len(Prog(s).tasks[v + 1]) + 1
 
 NoGuard == [k |-> "none", o |-> 0]
 NSlots == 4
@@ -61,7 +63,7 @@ InitState(p) ==
    \* program-declared Once cells, then two `static` Once cells, then the hidden cells of two lazy statics
    once |-> [x \in 1..(P.nonce + 4) |-> [st |-> "idle", owner |-> -1]],
    lzv |-> <<0, 0>>, lzdropped |-> {},
-   tls |-> << <<>> >>, dty |-> <<FALSE>>, nm |-> <<-2>>,
+   tls |-> << <<>> >>, dty |-> <<FALSE>>, nm |-> <<-2>>, sc |-> << {} >>,
    obs |-> [c \in 1..Len(P.tasks) |-> <<>>]]
 
 -----------------------------------------------------------------------------
@@ -182,6 +184,7 @@ CanComplete(s, t) ==
   /\ PanicKind(s, t) = ""
   /\ CASE o.k = "lock" -> p \in {"ready", "wait"} /\ MFree(s, o.o)
        [] o.k = "join" -> HasChild(s, o.v) /\ s.fin[ChildId(s, o.v) + 1]
+       [] o.k = "scope_end" -> \A c \in s.sc[t+1] : ClosureReturned(s, c)
        [] o.k = "exit" -> FALSE
        [] o.k = "cv_wait" -> p \in {"relock", "relockwait"} /\ MFree(s, o.v)
        [] o.k = "read" -> RFits(s, o.o)
@@ -210,16 +213,19 @@ Complete(s, t) ==
       base == [s EXCEPT !.pc[t+1] = @ + 1, !.ph[t+1] = "ready", !.ind[t+1] = 0, !.xr[t+1] = FALSE]
       R(r, s2) == [r |-> r, s |-> [s2 EXCEPT !.acc[t+1] = r]]
   IN
-  CASE o.k \in {"spawn", "spawn_named"} ->
+  CASE o.k \in {"spawn", "spawn_named", "sspawn"} ->
          R(s.n, [base EXCEPT !.n = @ + 1, !.ix = Append(@, o.v), !.pc = Append(@, 1), !.ph = Append(@, "ready"),
                              !.fin = Append(@, FALSE), !.acc = Append(@, 0), !.retv = Append(@, 0), !.ind = Append(@, 0),
                              !.wk = Append(@, FALSE), !.xr = Append(@, FALSE), !.tok = Append(@, FALSE),
                              !.unpk = Append(@, FALSE), !.gd = Append(@, [i \in 1..NSlots |-> NoGuard]),
                              !.tls = Append(@, <<>>), !.dty = Append(@, FALSE),
+                             !.sc = Append(IF o.k = "sspawn" THEN [s.sc EXCEPT ![t+1] = @ \cup {o.v}] ELSE s.sc, {}),
                              !.nm = Append(@, IF o.k = "spawn_named" THEN o.v ELSE -1)])
     [] o.k = "join" -> R(s.retv[ChildId(s, o.v) + 1], base)
     [] o.k \in {"yield", "spin"} -> R(0, Wake(base, t))
-    [] o.k \in {"sleep", "nop"} -> R(0, base)
+    [] o.k \in {"sleep", "nop", "scope_begin"} -> R(0, base)
+    \* thread::scope returns once the closure of every scoped thread has returned
+    [] o.k = "scope_end" -> R(0, [base EXCEPT !.sc[t+1] = {}])
     [] o.k = "acc" -> R(s.acc[t+1], base)
     \* shuttle::current::reset_step_count(): steps are counted from here on
     [] o.k = "reset_steps" -> R(0, [base EXCEPT !.rst = s.slen])
@@ -370,7 +376,7 @@ CanBlock(s, t) ==
                [] o.k = "park" -> ~s.tok[t+1]
                [] o.k = "exit" -> TlsLive(s, t) = <<>>     \* every thread-local destructor has run
                [] o.k \in OnceOps \cup LazyOps -> s.once[OIdx(s, t)+1].st # "done"
-               [] o.k \in {"lock", "join", "read", "write", "send", "recv", "try_recv", "barrier_wait", "acquire"} -> ~CanComplete(s, t)
+               [] o.k \in {"lock", "join", "scope_end", "read", "write", "send", "recv", "try_recv", "barrier_wait", "acquire"} -> ~CanComplete(s, t)
                [] OTHER -> FALSE)
        [] p = "cvwait" -> HasSignal(s, o.o, t)
        [] p = "relock" -> ~MFree(s, o.v)
@@ -390,7 +396,7 @@ Block(s, t) ==
            [] o.k = "park" -> [s EXCEPT !.ph[t+1] = "parked", !.unpk[t+1] = FALSE]
            [] o.k \in {"lock", "read", "write"} -> EnterPollWait(s, t, "wait")
            [] o.k = "acquire" -> EnterPollWait([s EXCEPT !.sem[o.o+1].q = Append(@, [t |-> t, n |-> o.v])], t, "wait")
-           [] o.k = "join" -> SetPh(s, t, "wait")
+           [] o.k \in {"join", "scope_end"} -> SetPh(s, t, "wait")
            [] o.k = "send" -> [s EXCEPT !.ph[t+1] = "wait", !.ch[o.o+1].waitS = Append(@, t)]
            [] o.k \in {"recv", "try_recv"} -> [s EXCEPT !.ph[t+1] = "wait", !.ch[o.o+1].waitR = Append(@, t)]
            [] o.k = "barrier_wait" -> [s EXCEPT !.ph[t+1] = "wait", !.bar[o.o+1].arrived = @ \cup {t}]
